@@ -611,7 +611,14 @@ def literal_tokens(tier):
             for lead in (1, max(1, base // 2 - 1), base // 2, base - 1):
                 wide.append(pre + digits(base, length, lead))
         wide.append(pre + seps(digits(base, 2 * stride + 3, 1), stride))
-    for v in [0, 1, -1, 2, 3, 96, -96, 255, 256, 257, 1 << 20, (1 << 20) + 1, (1 << 31) - 1, 1 << 31, -(1 << 31), (1 << 40) * 3,
+    # round 9: constants with exactly 31 / 32 / 33 / 62 / 63 significant bits (after the trailing zeros), both signs, some shifted
+    sig = []
+    for nb in (31, 32, 33, 62, 63):
+        for u in ((1 << nb) - 1, (1 << (nb - 1)) + 1):
+            sig += [u, -u]
+            if nb + 7 < 63:
+                sig.append(u << 7)
+    for v in sig + [0, 1, -1, 2, 3, 96, -96, 255, 256, 257, 1 << 20, (1 << 20) + 1, (1 << 31) - 1, 1 << 31, -(1 << 31), (1 << 40) * 3,
               (1 << 62), (1 << 63) - 1, -((1 << 63) - 1), 0x5555555555555555, 0x2AAAAAAAAAAAAAAA] + \
              [rnd.randrange(1, 1 << rnd.randint(2, 62)) << rnd.randint(0, 10) for _ in range(n // 3)]:
         if -(1 << 63) < v < (1 << 63):
@@ -633,7 +640,10 @@ def literal_tokens(tier):
     lines = ["LIT_C(%s)" % t for t in sorted(set(c))] + ["LIT_CNL(%s)" % t for t in sorted(set(cnl))] + \
             ["LIT_CNL2(%s)" % t for t in sorted(set(cnl2))] + ["LIT_WIDE(%s)" % t for t in sorted(set(wide))] + \
             ["MAKE_C(%dLL)" % v for v in sorted(set(mk))] + \
-            ["MAKE_C((static_cast<__int128>(%dLL) << %d))" % mk2 for mk2 in big] + ["MAKE_C(((static_cast<__int128>(1) << 64) + 1))"]
+            ["MAKE_C((static_cast<__int128>(%dLL) << %d))" % mk2 for mk2 in big] + ["MAKE_C(((static_cast<__int128>(1) << 64) + 1))",
+             "MAKE_C(((static_cast<__int128>(1) << 64) - 1))", "MAKE_C(((static_cast<__int128>(1) << 63) + 1))",
+             "MAKE_C((-((static_cast<__int128>(1) << 64) - 1)))", "MAKE_C((((static_cast<__int128>(1) << 64) - 1) << 20))",
+             "MAKE_C(((static_cast<__int128>(1) << 65) - 1))"]
     return lines
 
 
